@@ -1,0 +1,18 @@
+//go:build verif
+// +build verif
+
+package util
+
+import "time"
+
+// VerifTickGate, when set by a conformance harness, replaces the wheel's sleep between ticks:
+// the wheel goroutine calls it once per iteration and continues when it returns.
+var VerifTickGate func(tw *TimeWheel)
+
+func twSleep(tw *TimeWheel) {
+	if g := VerifTickGate; g != nil {
+		g(tw)
+		return
+	}
+	time.Sleep(tw.tick)
+}
